@@ -148,6 +148,16 @@ Proof.
   subst u2 u3. apply ser_eq; reflexivity.
 Qed.
 
+Lemma spec_PB_solves W F : solves_C W (pb_C W) /\ solves_u (pb_C W) F (pb_u (pb_C W) F).
+Proof. split; [exact (pb_C_solves W)|exact (pb_u_solves (pb_C W) F)]. Qed.
+
+Lemma spec_PB_unique W C F u :
+  solves_C W C -> solves_u C F u -> C = pb_C W /\ u = pb_u (pb_C W) F.
+Proof.
+  intros HC Hu. pose proof (pb_C_unique W C HC) as E. subst C.
+  split; [reflexivity|exact (pb_u_unique _ F u Hu)].
+Qed.
+
 (** a cubic vector polynomial determines its coefficients *)
 Lemma cubic_zero c0 c1 c2 c3 :
   (forall t, c0 + t * c1 + (t * t * c2 + t * t * t * c3) = 0) -> c0 = 0 /\ c1 = 0 /\ c2 = 0 /\ c3 = 0.
